@@ -123,12 +123,12 @@ class ExposeSensor(Device):
 
     def async_remove_tasks(self) -> None:
         """Remove async tasks of device."""
+        # the task objects hold the configuration - they are started again by
+        # async_start_tasks() / set() when the device is added or xknx is started again
         if self._cooldown_task is not None:
             self.xknx.task_registry.remove_task(self._cooldown_task)
-            self._cooldown_task = None
         if self._periodic_send_task is not None:
             self.xknx.task_registry.remove_task(self._periodic_send_task)
-            self._periodic_send_task = None
 
     def process_group_write(self, telegram: GroupValueTelegram) -> None:
         """Process incoming and outgoing GROUP WRITE telegram."""
